@@ -365,6 +365,18 @@ func (ps *cparser) mkCall(name string, args []Expr) Expr {
 		}
 		return EQuant{All: name == "all", Var: id.Name, Lo: args[1], Hi: args[2], Body: args[3]}
 	}
+	if name == "allobj" {
+		// allobj(x, "*T", body): body holds for every object reference x of type *T
+		if len(args) != 3 {
+			ps.fail("allobj(x, \"*T\", body)")
+		}
+		id, ok1 := args[0].(EIdent)
+		ts, ok2 := args[1].(EStr)
+		if !ok1 || !ok2 {
+			ps.fail("allobj(x, \"*T\", body)")
+		}
+		return EQuant{All: true, Var: id.Name, Lo: EStr{ts.V}, Hi: nil, Body: args[2]}
+	}
 	return ECall{name, args}
 }
 
@@ -432,6 +444,9 @@ func exprString(e Expr) string {
 		}
 		return exprString(x.X) + "[" + lo + ":" + hi + "]"
 	case EQuant:
+		if ts, ok := x.Lo.(EStr); ok && x.Hi == nil {
+			return fmt.Sprintf("allobj(%s, %q, %s)", x.Var, ts.V, exprString(x.Body))
+		}
 		n := "any"
 		if x.All {
 			n = "all"
